@@ -62,6 +62,22 @@ def broadcast (a b : Shape) : Option Shape :=
 /-- `ufunc.outer(a, b)`: the shapes are concatenated -/
 def outer (a b : Shape) : Shape := a ++ b
 
+/-- `np.matmul` (a generalised ufunc) for 1-d and 2-d operands: a 1-d operand is promoted to a
+    row / column and the added axis removed again -/
+def matmulShape (a b : Shape) : Option Shape :=
+  match a, b with
+  | [k], [k'] => if k = k' then some [] else none
+  | [n, k], [k'] => if k = k' then some [n] else none
+  | [k], [k', m] => if k = k' then some [m] else none
+  | [n, k], [k', m] => if k = k' then some [n, m] else none
+  | _, _ => none
+
+/-- `np.vecdot`: the last axes are contracted, the leading ones broadcast -/
+def vecdotShape (a b : Shape) : Option Shape :=
+  match a.getLast?, b.getLast? with
+  | some k, some k' => if k = k' then broadcast a.dropLast b.dropLast else none
+  | _, _ => none
+
 /-! ### reductions -/
 
 /-- a possibly negative axis number against `n` dimensions (`normalize_axis_index`) -/
